@@ -273,11 +273,21 @@ class ConverterToPDDLString(walkers.DagWalker):
     def walk_real_constant(self, expression, args):
         assert len(args) == 0
         frac = expression.constant_value()
+        if frac < 0:  # a PDDL <number> is unsigned
+            return f"(- {self.convert_fraction(-frac)})"
         return str(self.convert_fraction(frac))
 
     def walk_int_constant(self, expression, args):
         assert len(args) == 0
-        return str(expression.constant_value())
+        value = expression.constant_value()
+        if value < 0:  # a PDDL <number> is unsigned
+            return f"(- {-value})"
+        return str(value)
+
+    def convert_number(self, expression):
+        """Converts a numeric constant to a (possibly signed) PDDL literal, for the `:init` section."""
+        value = expression.constant_value()
+        return str(value) if expression.is_int_constant() else str(self.convert_fraction(value))
 
     def walk_plus(self, expression, args):
         assert len(args) > 1
@@ -776,6 +786,9 @@ class PDDLWriter:
                 out.write(f" {converter.convert(f)}")
             elif v.is_false():
                 pass
+            elif v.is_int_constant() or v.is_real_constant():
+                out.write(f"\n             ")
+                out.write(f" (= {converter.convert(f)} {converter.convert_number(v)})")
             else:
                 out.write(f"\n             ")
                 out.write(f" (= {converter.convert(f)} {converter.convert(v)})")
